@@ -16,6 +16,7 @@ import json
 
 import z3
 
+from vp.world import raised_in_harness as _rih
 from vp import symx, util
 from vp.symx import oblige, zint, SymFloat
 from vp.world import SymWorld, NativeWorld, native_compare, model_values
@@ -384,7 +385,7 @@ def replay_ctor(wit, ob):
         g = xgcm.Grid(ds, coords=layout, periodic=parg, boundary=barg, fill_value=farg, autoparse_metadata=False)
     except Exception as e:  # noqa
         text.append(f"REAL CODE RAISED {type(e).__name__}: {e}")
-        return {"confirmed": True, "text": "\n".join(text)}
+        return {"confirmed": not _rih(e), "text": "\n".join(text)}
     bad = []
     for a in axes:
         want = spec.rule_in_force(None, bval, pval, a, axes)
@@ -422,7 +423,7 @@ def replay_pad(wit, ob):
     except Exception as e:  # noqa
         text.append(f"native parameters {nw.consts}")
         text.append(f"REAL CODE RAISED {type(e).__name__}: {e}")
-        return {"confirmed": True, "text": "\n".join(text)}
+        return {"confirmed": not _rih(e), "text": "\n".join(text)}
     text.append(f"native parameters {nw.consts}; structure {s['sid']}")
     symx.CUR = symx.Ctx([])
     try:
